@@ -116,8 +116,9 @@ def snapshot(root):
 
 
 def _backed_up(p, b, before, after):
-    """The legacy CSV may be renamed to a NEW backup file <name>.bak[.N] holding exactly its bytes."""
-    return any(q.startswith(p + ".bak") and q not in before and c == b for q, c in after.items())
+    """The legacy CSV may be renamed to a NEW backup file holding exactly its bytes (any name, same directory:
+    the property promises a backup, not how it is called)."""
+    return any(os.path.dirname(q) == os.path.dirname(p) and q not in before and c == b for q, c in after.items())
 
 
 def frame_violations(cmd_name, before, after):
